@@ -425,6 +425,13 @@ def main(argv):
         mode = ["-s"] if n % 2 else []
         st, so, se = run_limited([tool, "-w", "40"] + mode + [idc], stdin=b"".join(l + b"\n" for l in ls), timeout=60)
         check_stream("at-once", ls, st, so, se, "%d lines (see mklines in checks/C07.py) | foldfilter -w 40 %s child_id.py" % (n, " ".join(mode)))
+    # one very long line (bigger than every stream buffer and pipe; thousands of pieces) between short ones
+    bigs = " ".join("w%d" % (i % 1000) + ("\u00e9" if i % 5 == 0 else "") for i in range(60000))
+    bigl = bigs.encode("utf-8")
+    ls = mklines(30) + [bigl, b"", bigs[: len(bigs) // 2].encode("utf-8")] + mklines(30)
+    for mode in ([], ["-s"]):
+        st, so, se = run_limited([tool, "-w", "40"] + mode + [idc], stdin=b"".join(l + b"\n" for l in ls), timeout=120)
+        check_stream("big-line" + (mode and ":-s" or ""), ls, st, so, se, "60 short lines around two lines of ~300 kB / 150 kB | foldfilter -w 40 %s child_id.py" % " ".join(mode))
     for n, cuts in ((2500, (1023, 2046)), (1100, (1022,)), (2100, (1024, 2047))):
         ls = mklines(n)
         enc = [l + b"\n" for l in ls]
